@@ -2,28 +2,28 @@ package symgo
 
 import (
 	"fmt"
-	"runtime/debug"
 	"go/token"
 	"go/types"
+	"runtime/debug"
 	"strings"
 
 	"golang.org/x/tools/go/ssa"
 )
 
 type Config struct {
-	Entry         string // harness function name
-	MaxDecisions  int    // per path (unwinding bound on symbolic decisions)
-	MaxSteps      int    // per path instruction budget
-	MaxDepth      int    // call depth
-	QueryTimeout  int    // ms
-	IntMode       bool
-	Trace         bool
-	Stubs         map[string]string // full function name -> "noop" | harness function name | "nondet"
-	InitSkip      map[string]bool
-	SolverBin     []string
-	ShadowBin     []string
-	NoIfConv      bool
-	SmtLog        string
+	Entry          string // harness function name
+	MaxDecisions   int    // per path (unwinding bound on symbolic decisions)
+	MaxSteps       int    // per path instruction budget
+	MaxDepth       int    // call depth
+	QueryTimeout   int    // ms
+	IntMode        bool
+	Trace          bool
+	Stubs          map[string]string // full function name -> "noop" | harness function name | "nondet"
+	InitSkip       map[string]bool
+	SolverBin      []string
+	ShadowBin      []string
+	NoIfConv       bool
+	SmtLog         string
 	MapOrderNondet bool
 }
 
@@ -43,18 +43,18 @@ type Worker struct {
 	solver *Solver
 	stats  Stats
 
-	globals     map[*ssa.Global]*Value
-	inited      map[*ssa.Package]bool
-	initFail    map[string]string
-	dirty       map[*ssa.Package]bool
-	inInit      int
-	funcsSeen   map[*ssa.Function]bool
-	runtimeErrT types.Type
+	globals      map[*ssa.Global]*Value
+	inited       map[*ssa.Package]bool
+	initFail     map[string]string
+	dirty        map[*ssa.Package]bool
+	inInit       int
+	funcsSeen    map[*ssa.Function]bool
+	runtimeErrT  types.Type
 	errorStringT types.Type
-	pdom        map[*ssa.Function]*pdomInfo
-	sizes       types.Sizes
-	stubFns     map[*ssa.Function]*ssa.Function
-	path        *Path
+	pdom         map[*ssa.Function]*pdomInfo
+	sizes        types.Sizes
+	stubFns      map[*ssa.Function]*ssa.Function
+	path         *Path
 	samplesTaken int
 }
 
@@ -795,7 +795,7 @@ func doRecover(caller *frame) Value {
 var neverInit = map[string]bool{
 	"runtime": true, "os": true, "syscall": true, "reflect": true, "sync": true, "sync/atomic": true,
 	"testing": true, "log": true, "internal/cpu": true, "internal/godebug": true, "os/signal": true,
-	"internal/poll": true, "internal/testlog": true, "internal/oserror": true,
+	"internal/poll": true, "internal/testlog": true,
 	"runtime/debug": true, "runtime/pprof": true, "runtime/trace": true, "net": true,
 	"crypto/rand": true, "math/rand": true, "math/rand/v2": true, "internal/reflectlite": true,
 	"log/slog": true, "flag": true, "os/exec": true, "os/user": true, "crypto/tls": true, "crypto/x509": true,
@@ -803,13 +803,16 @@ var neverInit = map[string]bool{
 	"github.com/sirupsen/logrus": true, "iter": true, "context": false,
 }
 
+var initInternalOK = map[string]bool{"internal/itoa": true, "internal/stringslite": true, "internal/oserror": true,
+	"internal/byteorder": true, "internal/filepathlite": true}
+
 func (w *Worker) ensureInit(pkg *ssa.Package) {
 	if w.inited[pkg] {
 		return
 	}
 	w.inited[pkg] = true
 	path := pkg.Pkg.Path()
-	if neverInit[path] || w.cfg.InitSkip[path] || strings.HasPrefix(path, "internal/") && path != "internal/itoa" && path != "internal/stringslite" {
+	if neverInit[path] || w.cfg.InitSkip[path] || strings.HasPrefix(path, "internal/") && !initInternalOK[path] {
 		if path == "os" || path == "internal/oserror" || path == "syscall" {
 			// error sentinels are commonly referenced: leave zero
 		}
@@ -885,7 +888,6 @@ func (w *Worker) resetDirty() {
 	w.dirty = map[*ssa.Package]bool{}
 }
 
-
 func isByteSlice(t types.Type) bool {
 	if s, ok := t.Underlying().(*types.Slice); ok {
 		if b, ok := s.Elem().Underlying().(*types.Basic); ok && b.Kind() == types.Uint8 {
@@ -907,7 +909,6 @@ func (p *Path) noteElem(ptr *Value, s Slice, i int) {
 	}
 	p.elemOrigin[ptr] = elemRef{s, i}
 }
-
 
 // undoRec records a memory write made during a path so that state reachable from package-level
 // variables (initialised once per worker) is restored before the next path.
@@ -936,7 +937,6 @@ func (p *Path) rollbackWrites() {
 	}
 	p.undo = nil
 }
-
 
 // symElemRef is the address of elems[idx] for a symbolic idx (already bounds-checked); it only ever
 // flows into loads (see loadOnlyReferrers).
